@@ -35,6 +35,73 @@ Example C09_F8_rejected_at_load :
   val (load req_all ["u"]) f8_fs = inl (LayerL "public.default" LInvalidGlyphFileName).
 Proof. vm_compute. reflexivity. Qed.
 
+(** Fonts built through the API.  [Layer.state] is the container model of C06/C07
+    (Model/Layer.v); [abstracts_containers fa s] says that the save-side abstraction [fa] has, layer
+    by layer, the directory of [s] and only glif paths that are file names of [s]'s index, each
+    parsed as [Path::components] parses a text ([rel_of], the function of Model/Store.v used by
+    C16).  After ANY history of container operations (without the raw entry access, not
+    panicking) from a new font - or from any loaded font - the abstraction is [layers_safe]:
+    C06_reachable_plain gives plain names, and a plain name is exactly one normal component. *)
+Require Norad.Model.FileName Norad.Proofs.FileNameP Norad.Model.Layer Norad.Proofs.LayerP Norad.Model.Store Norad.Proofs.SaveBuiltP.
+
+Theorem C09_safe_when_built :
+  ∀ is_upper lower ops (s : Layer.state) (fa : font_abs),
+    Layer.clean is_upper lower Layer.init ops → Layer.run is_upper lower Layer.init ops = Some s →
+    SaveBuiltP.abstracts_containers fa s → layers_safe fa.
+Proof. exact SaveBuiltP.safe_when_built. Qed.
+Theorem C09_safe_when_loaded_and_modified :
+  ∀ is_upper lower d (s0 : Layer.state) ops (s : Layer.state) (fa : font_abs),
+    Layer.load lower d = Some s0 →
+    Layer.clean is_upper lower s0 ops → Layer.run is_upper lower s0 ops = Some s →
+    SaveBuiltP.abstracts_containers fa s → layers_safe fa.
+Proof. exact SaveBuiltP.safe_when_loaded_and_modified. Qed.
+(** every container state has such an abstraction (so the theorems are not vacuous) *)
+Theorem C09_abstraction_exists : ∀ s : Layer.state, SaveBuiltP.abstracts_containers (SaveBuiltP.abs_font s) s.
+Proof. exact SaveBuiltP.abs_font_abstracts. Qed.
+(** Store keys.  [font_abs] keeps store keys as lists of plain names.  That is what they are
+    under C16's invariant (every key of a store built or loaded through the API): all components
+    normal, none lost, at least one. *)
+Theorem C09_store_keys_plain :
+  ∀ k its t c, Store.C16_inv k its → In (t, c) its →
+    map SaveBuiltP.to_comp (Store.components t) = map Normal (SaveBuiltP.key_of t) ∧ SaveBuiltP.key_of t ≠ [].
+Proof. exact SaveBuiltP.store_keys_plain. Qed.
+
+(** hence, for every font built through the API, without any hypothesis on paths: *)
+Theorem C09_frame_built :
+  ∀ is_upper lower ops (s : Layer.state) (fa : font_abs) (t : path) (m : sfs) (o : outcome) (m' : sfs) (p : path),
+    Layer.clean is_upper lower Layer.init ops → Layer.run is_upper lower Layer.init ops = Some s →
+    SaveBuiltP.abstracts_containers fa s →
+    save fa t m = (o, m') → ¬ under t p → m' !! p = m !! p.
+Proof.
+  intros iu lo ops s fa t m o m' p Hc Hr Ha. apply save_frame.
+  by eapply SaveBuiltP.safe_when_built.
+Qed.
+Theorem C09_tree_function_built :
+  ∀ is_upper lower ops (s : Layer.state) (fa : font_abs) (t : path) (m m' : sfs),
+    Layer.clean is_upper lower Layer.init ops → Layer.run is_upper lower Layer.init ops = Some s →
+    SaveBuiltP.abstracts_containers fa s →
+    wf_fs m → save fa t m = (Saved, m') →
+    ∃ f', force_stores m fa = Some f' ∧ restrict_under t m' = place t (tree_of f').
+Proof.
+  intros iu lo ops s fa t m m' Hc Hr Ha Hwf. apply tree_function; [done|].
+  by eapply SaveBuiltP.safe_when_built.
+Qed.
+(** non-vacuity: two glyphs whose names differ by case and two such layers, built through the
+    API; the abstraction has the assigned names as single components *)
+Example C09_built_example :
+  let ops := [Layer.InsertGlyph FileName.DEFAULT_LAYER_NAME LayerP.nA;
+              Layer.InsertGlyph FileName.DEFAULT_LAYER_NAME [97; 95]%N; Layer.NewLayer LayerP.nA] in
+  Layer.clean FileNameP.ascii_is_upper FileNameP.ascii_lower Layer.init ops ∧
+  ∃ s, Layer.run FileNameP.ascii_is_upper FileNameP.ascii_lower Layer.init ops = Some s ∧
+       map la_dir (fa_layers (SaveBuiltP.abs_font s)) = [[Normal "glyphs"]; [Normal "glyphs.A_"]] ∧
+       layers_safe (SaveBuiltP.abs_font s).
+Proof.
+  split.
+  - cbn. repeat split; intros H; vm_compute in H; tauto.
+  - eexists. split; [vm_compute; reflexivity|]. split; [vm_compute; reflexivity|].
+    apply layers_safeb_spec. vm_compute. reflexivity.
+Qed.
+
 (** ** Frame and tree *)
 
 (** Nothing outside the target changes — whatever the outcome of the save, for every prior
